@@ -1027,6 +1027,8 @@ class Trait:
             f.add("recv:" + m.recv)
             if getattr(m.ret, "self_return", False):
                 f.add("self-return")
+            if getattr(m, "plain_after_int", False):
+                f.add("plain-result-after-method-level-int_result")
             if getattr(m, "doc", None):
                 f.add("doc-text-mentions-attribute-names")
             if isinstance(m.ret, RChild) and m.ret.mode == "ref" and m.recv == "ref":
@@ -1164,7 +1166,16 @@ def gen_trait(rng, name, prefix, max_methods=5, allow_child=True, tindex=0):
         j = len(methods)
         pm = Method(j, f"{prefix}_{j}", "ref", [AVal(0, "u32")], RRes("u64", "LErr"))
         pm.gid = tindex * 100 + j
+        pm.plain_after_int = True
         methods.append(pm)
+        # (every plain Result behind the first annotated method gets an error type that HAS an
+        # integer coding: a leaked attribute then changes behaviour instead of failing to compile)
+        seen = False
+        for m in methods:
+            if seen and isinstance(m.ret, RRes):
+                m.ret.b = "LErr"
+            if getattr(m.ret, "int_result", None) is True:
+                seen = True
     # the user may spell Option / Result through their module paths
     for m in methods:
         for x in list(m.args) + [m.ret]:
